@@ -262,7 +262,13 @@ func c08(c *core.Ctx) {
 		// Flush hands flush's error on and does not report success without the file having been replaced. The call may sit in a same-package
 		// helper; a skip is accepted only under a dirty flag that every writer of the candidate cache raises.
 		flushFn := c.Fn(st + ".RunContext.Flush")
-		flushM := c.Method(st+".RunContext", "flush")
+		flushM := c.MethodOpt(st+".RunContext", "flush")
+		if flushM == nil {
+			// flush was inlined into Flush: the write rules above were evaluated on Flush itself; what remains is that Flush hands the
+			// rename's error on, which `RunContext.flush:new-file-synced≺rename` already requires
+			c.CheckTrivial("RunContext.Flush:success⇒context.data-replaced", "must-call", true, flushFn.Pos(), "flush is part of Flush now")
+			return
+		}
 		propagatedDeep(c, flushFn, flushM, 3)
 		var state []*types.Var
 		cst := c.Struct(st + ".CandidateCache")
